@@ -31,7 +31,7 @@ def run(repo, chk):
     chk.assumptions = ['np.rot90(img, k) on (x, y) of an H x W image: k=1 -> (y, W-1-x), k=2 -> (W-1-x, H-1-y), k=3 -> (H-1-y, x)', 'np.where(image) returns (rows = y, columns = x)']
     R = Rules(repo, chk)
     refcheck.run_all(R, repo, chk, 'RECUR', 'layoutdec_ref.py', WHAT)
-    R.run('AFFINE', affine, repo, chk)
+    R.run('AFFINE', affine, repo, chk, soft_for=[L + ':LayoutEngine.rotate_layout', L + ':LayoutEngine.detect'])
     R.run('AXIS', axis, repo, Soft(chk))
     chk.expect('RECUR', 9)
     chk.expect('AFFINE', 10)
@@ -71,6 +71,8 @@ def _interp(stmts, shape_name, lists):
                 st[name] = (neg(a, consts[e.left.id][0]), neg(b, consts[e.left.id][1]))
             else:
                 raise AnalysisError('unrecognised list transformation: %s' % src(s))
+        elif isinstance(s, ast.Assign) and isinstance(s.targets[0], ast.Name) and isinstance(s.value, ast.Name) and s.value.id in consts:
+            consts[s.targets[0].id] = consts[s.value.id]
         elif isinstance(s, ast.Assign) and isinstance(s.targets[0], ast.Name):
             t = ' '.join(src(s.value).split())
             if t in ('np.asarray(%s[:2][::-1])' % shape_name, 'np.array(%s[:2][::-1])' % shape_name):
